@@ -337,7 +337,7 @@ def correspond(ctx):
             lines.append(f'c07.bc {deg} {qs(tck[0])} {qs(x)} {qs(tck[1])}')
             metas.append(('bc', meta, np.asarray(out, float), float(np.max(np.abs(tck[1])))))
     # 2-D
-    for host in ('pspline_asls', 'pspline_arpls', 'pspline_iarpls', 'pspline_psalsa', 'pspline_airpls', 'pspline_lsrpls', 'irsqr'):
+    for host in ('pspline_asls', 'pspline_arpls', 'pspline_iarpls', 'pspline_psalsa', 'pspline_airpls', 'pspline_lsrpls', 'irsqr', 'pspline_iasls'):
         for _ in range(2 if not ctx.thorough else 5):
             m_, n_ = int(rng.integers(6, 12)), int(rng.integers(6, 12))
             degr, degc = int(rng.integers(0, 4)), int(rng.integers(0, 4))
@@ -345,13 +345,20 @@ def correspond(ctx):
             nbr, nbc = kr + degr - 1, kc + degc - 1
             if nbr < 2 or nbc < 2:
                 continue
-            dr, dc = int(rng.integers(1, min(3, nbr - 1) + 1)), int(rng.integers(1, min(3, nbc - 1) + 1))
+            dmin2 = 2 if host == 'pspline_iasls' else 1
+            if min(nbr, nbc) - 1 < dmin2:
+                continue
+            dr, dc = int(rng.integers(dmin2, min(3, nbr - 1) + 1)), int(rng.integers(dmin2, min(3, nbc - 1) + 1))
             lamr, lamc = float(10.0 ** int(rng.integers(-2, 4))), float(10.0 ** int(rng.integers(-2, 4)))
             x, z, Y = M.make_data2d(rng, m_, n_)
             if rng.random() < 0.5:
                 x = np.sort(rng.uniform(0, 5, m_))
                 z = np.sort(rng.uniform(-2, 2, n_))
             kw = dict(lam=(lamr, lamc), diff_order=(dr, dc), num_knots=(kr, kc), spline_degree=(degr, degc), max_iter=2, tol=0.0)
+            l1r = l1c = 0.0
+            if host == 'pspline_iasls':
+                l1r, l1c = float(rng.choice([1e-3, 0.5, 20.0])), float(rng.choice([1e-3, 0.5, 20.0]))
+                kw['lam_1'] = (l1r, l1c)
             with Capture() as cap:
                 try:
                     with np.errstate(all='ignore'):
@@ -365,6 +372,8 @@ def correspond(ctx):
             ctx.count('host2d:' + host)
             rule_based = host != 'irsqr'
             w_seq = [np.ones((m_, n_))] + [r.reshape(m_, n_) for r in cap.rules]
+            if host == 'pspline_iasls':
+                w_seq = w_seq[1:]         # the first weights come from the rule applied to the initial polynomial fit
             for k, sv in enumerate(cap.solves):
                 if k >= len(w_seq) or not np.all(np.isfinite(sv['coef'])):
                     break
@@ -378,7 +387,7 @@ def correspond(ctx):
                         kp = knots_problem(knots, ax, nk, dg)
                         if kp:
                             dis.append(Disagreement('c07.knots', f'2d.{host}:knots', f'2-D {host} ({nm}): {kp}', meta, True))
-                lines.append(f'c07.berr2 {degr} {degc} {dr} {dc} {q(lamr)} {q(lamc)} {qs(sv["knots_r"])} {qs(sv["knots_c"])} {qs(sv["x"])} {qs(sv["z"])} '
+                lines.append(f'c07.berr2 {degr} {degc} {dr} {dc} {q(lamr)} {q(lamc)} {int(host == "pspline_iasls")} {q(l1r)} {q(l1c)} {qs(sv["knots_r"])} {qs(sv["knots_c"])} {qs(sv["x"])} {qs(sv["z"])} '
                              f'{mat(sv["y"])} {mat(wk)} {mat(sv["coef"])}')
                 metas.append(('berr', meta))
                 lines.append(f'c07.bc2 {degr} {degc} {qs(sv["knots_r"])} {qs(sv["knots_c"])} {qs(sv["x"])} {qs(sv["z"])} {mat(sv["coef"])}')
